@@ -219,7 +219,10 @@ def run(ctx: Ctx) -> None:
             raise AnalysisError(f"cannot fold terminator set at {mod.loc(call)}")
         if fname == "_parse_concept":
             # reasoned exception: the ';' is consumed by the dispatch table's no-op entry
-            ok = all(";" in t for t, _ in variants) and pm.dispatch.get(";") == "<lambda>"
+            h = pm.dispatch.get(";")
+            # a no-op: a lambda, or a handler method that consumes nothing and emits nothing
+            noop = h == "<lambda>" or (h in pm.methods and h not in pm.may_consume() and h not in pm.may_emit())
+            ok = all(";" in t for t, _ in variants) and noop
             ctx.ob("R14.3", f"parser:CxxParser.{fname}|{[sorted(t) for t, _ in variants]}", ok, msg="concept constraint terminators no longer include the ';' consumed by the dispatch no-op", node=call, mod=mod, nontrivial=False)
             continue
         for terms, only in variants:
